@@ -119,6 +119,14 @@ def shapes(tier):
          'script': [('mp_add', 'm1', 1, 'A'), ('query', 0, 'mempool', 'A'), ('query', 0, 'listunspent', 'A'),
                     ('block', cbB, ['m1']), ('query', 0, 'balance', 'A')]},
     ]
+    # by-height answers cached for several heights (walking back from the tip), then a reorg replacing two of them
+    out.append({'initial': INITIAL + [payA, payAB], 'deviations': d1, 'early': False,
+                'script': [('query', 0, 'id_from_pos_merkle', (5, 1))] +
+                          [('query', 0, 'id_from_pos', (h, 0)) for h in (5, 4, 3, 2, 1, 0)] +
+                          [('reorg', 2, [cbB, payA, cbC])]})
+    out.append({'initial': INITIAL + [payA, payAB], 'deviations': 0, 'early': False,
+                'script': [('query', 0, 'id_from_pos', (h, 0)) for h in (0, 1, 2, 3, 4, 5, 3, 1)] +
+                          [('reorg', 2, [cbB, payA, cbC])]})
     if tier == 'thorough':
         for s in list(out):
             out.append(dict(s, deviations=2, window=10))
